@@ -571,6 +571,9 @@ class VAMTransmissionManagement:
         self.t_genvam = vam_constants.T_GENVAMMIN
         self.n_genvam = 1
         self.last_vam_generation_delta_time: GenerationDeltaTime | None = None
+        #: Time (seconds since epoch) of the position report being processed / of the one the last VAM was built from.
+        self._report_time: float | None = None
+        self._last_vam_report_time: float | None = None
         self.last_sent_position: tuple[float, float] = (0.0, 0.0)
         self.last_vam_info_lock = threading.Lock()
         self.last_vam_speed: float = 0.0
@@ -646,6 +649,9 @@ class VAMTransmissionManagement:
         vam_to_send.fullfill_with_device_data(self.device_data_provider)
         vam_to_send.fullfill_with_tpv_data(tpv)
         self.logging.debug("Fullfilled VAM with TPV data %s", tpv)
+        self._report_time = (
+            parser.parse(tpv["time"]).timestamp() if "time" in tpv else None
+        )
 
         # Suppress individual VAMs when passive (clustering state machine).
         if (
@@ -663,9 +669,17 @@ class VAMTransmissionManagement:
 
         diff_time: int = received_generation_delta_time - \
             self.last_vam_generation_delta_time
+        # generationDeltaTime wraps every 65 536 ms: a longer pause between reports is only
+        # visible on the report times themselves.
+        long_pause = (
+            self._report_time is not None
+            and self._last_vam_report_time is not None
+            and (self._report_time - self._last_vam_report_time) * 1000 >= 65536
+        )
         if (
             diff_time
             >= self.t_genvam
+            or long_pause
         ):
             self.send_next_vam(vam=vam_to_send)
             return
@@ -808,6 +822,7 @@ class VAMTransmissionManagement:
         with self.last_vam_info_lock:
             self.last_vam_generation_delta_time = GenerationDeltaTime(
                 msec=vam.vam['vam']['generationDeltaTime'])
+            self._last_vam_report_time = self._report_time
             self.last_sent_position = (
                 vam.vam["vam"]["vamParameters"]["basicContainer"][
                     "referencePosition"
